@@ -2,7 +2,7 @@
    Statements only; proofs in Proofs/TrimWindowP.v, Proofs/MaskP.v, Proofs/WriterP.v. *)
 From Coq Require Import List NArith ZArith Arith.
 From WS Require Import Base.Words Model.Mask Model.Frame Model.Proto Model.Writer Model.RefDecoder Model.Window
-  Model.Reader Model.Script Model.ScriptZ Gen.Consts Proofs.ReaderZP Proofs.MaskP Proofs.WriterP Proofs.TrimWindowP Proofs.RoundTripP.
+  Model.Reader Model.Script Model.ScriptZ Gen.Consts Proofs.ReaderZP Proofs.RoundTripZP Proofs.MaskP Proofs.WriterP Proofs.TrimWindowP Proofs.RoundTripP.
 Import ListNotations.
 Close Scope N_scope. Close Scope Z_scope. Open Scope nat_scope.
 
@@ -82,3 +82,40 @@ Theorem C01_compressed_delivery : forall (inflate : bytes -> bytes -> bytes * is
   r_inq (snd r) = [] /\ r_closed (snd r) = false.
 Proof. exact reader_valid_zstream_contract. Qed.
 Print Assumptions C01_compressed_delivery.
+
+(* ---- END-TO-END round trip WITH compression, under an explicit contract on compress/flate ----
+   dz is the compressor oracle of the Writer model (history of Write/Flush operations -> chunks handed to the underlying
+   writer), inflate the inflater oracle of the Reader model.  Contract: (F0) the compressor emits byte chunks; (F1) on a writer
+   that has compressed the messages css, the chunks emitted for Write(c1) .. Write(ck) Flush() concatenate — however the
+   compressor cuts its output — to deflate_body (last window of the earlier plain texts) (c1 ++ .. ++ ck) ++ 00 00 ff ff;
+   (F2) inflate with the same dictionary returns the plain text.  Then for every role, negotiated option set (context
+   takeover or not on either side), threshold, key supply, program of Write / Writer..Write*..Close / Ping / Pong operations
+   (messages below the threshold go uncompressed), read-buffer sizes and transport ending: reading the Writer's wire with the
+   peer's Reader delivers exactly the messages written, in order, with their types, answers every Ping, consumes everything. *)
+Theorem C01_roundtrip_compressed : forall (dz : list dzop -> list bytes) (inflate : bytes -> bytes -> bytes * istatus) (deflate_body : bytes -> bytes -> bytes),
+  (forall h, wf_hist h -> Forall wf_payload (dz h)) ->
+  (forall css cs, Forall wf_chunks css -> wf_chunks cs -> cs <> [] ->
+     dz_run dz (hist_of css) (msg_ops cs) = deflate_body (dict_of css) (concat cs) ++ c_deflateMessageTail) ->
+  (forall dict plain, (length dict <= zwindow)%nat -> inflate dict (deflate_body dict plain ++ c_deflateMessageTail) = (plain, INeedMore)) ->
+  forall keys (r : role) co thr0 prog sizes e,
+  (forall i, wf_key (keys i)) -> Forall wf_dc_op prog -> ends_with_data prog ->
+  length sizes = count_data prog -> Forall (fun n => 0 < n)%nat sizes ->
+  let wcfg := {| wc_role := r; wc_co := Some co; wc_thr0 := thr0 |} in
+  let rcfg := {| rc_role := peer r; rc_co := Some co |} in
+  let res := run rcfg inflate (-1)%Z (w_wire (w_run keys dz wcfg prog)) e (read_ops sizes) in
+  fst res = delivered prog /\
+  r_replies (snd res) = pongs_due prog /\
+  r_pongs (snd res) = pong_notes prog /\
+  r_inq (snd res) = [] /\ r_closed (snd res) = false.
+Proof. exact roundtrip_compressed. Qed.
+Print Assumptions C01_roundtrip_compressed.
+
+(* the contract is satisfiable: a toy compressor / inflater pair (dictionary-dependent mark byte, output cut into odd chunks,
+   an inflater that rejects the wrong dictionary) satisfies F0-F2, so the theorem is not vacuous *)
+Theorem C01_contract_satisfiable : exists dz inflate deflate_body,
+  (forall h, wf_hist h -> Forall wf_payload (dz h)) /\
+  (forall css cs, Forall wf_chunks css -> wf_chunks cs -> cs <> [] ->
+     dz_run dz (hist_of css) (msg_ops cs) = deflate_body (dict_of css) (concat cs) ++ c_deflateMessageTail) /\
+  (forall dict plain, (length dict <= zwindow)%nat -> inflate dict (deflate_body dict plain ++ c_deflateMessageTail) = (plain, INeedMore)).
+Proof. exists toy_dz, toy_inflate2, toy_body. split; [exact toy_dz_wf | split; [exact toy_flush | exact toy_inflate_deflate]]. Qed.
+Print Assumptions C01_contract_satisfiable.
